@@ -66,17 +66,25 @@ Print Assumptions C13_inrange.
 
 (* DecomposePQ, PARTIAL correctness: whenever the (fuelled) model returns, for ANY random
    stream, any fuel and any pq, the result is a factorisation in ascending order ... *)
-Theorem C13_pq_partial : forall rounds fuel pq rnd p q,
-  decompose_pq rounds fuel pq rnd = Ok (p, q) -> p * q = pq /\ 1 < p <= q.
+Theorem C13_pq_partial : forall pq_is_prime rounds fuel pq rnd p q,
+  decompose_pq pq_is_prime rounds fuel pq rnd = Ok (p, q) -> p * q = pq /\ 1 < p <= q.
 Proof. exact decompose_pq_partial. Qed.
 Print Assumptions C13_pq_partial.
 
 (* ... hence for a product of two primes exactly the two primes, ascending. *)
-Theorem C13_pq_semiprime : forall rounds fuel a b rnd p q,
+Theorem C13_pq_semiprime : forall pq_is_prime rounds fuel a b rnd p q,
   prime a -> prime b -> a <= b ->
-  decompose_pq rounds fuel (a * b) rnd = Ok (p, q) -> p = a /\ q = b.
+  decompose_pq pq_is_prime rounds fuel (a * b) rnd = Ok (p, q) -> p = a /\ q = b.
 Proof. exact decompose_pq_semiprime. Qed.
 Print Assumptions C13_pq_semiprime.
+
+(* pq comes from the not yet authenticated server: after the repair (values below 4 and primes
+   are rejected up front) no input makes the factor search panic (division by zero in
+   big.Int.Mod for pq = 0, 1 before the repair). *)
+Theorem C13_pq_no_panic : forall pq_is_prime rounds fuel pq rnd,
+  decompose_pq pq_is_prime rounds fuel pq rnd <> Panic.
+Proof. exact decompose_pq_no_panic. Qed.
+Print Assumptions C13_pq_no_panic.
 
 (* NOT proved (and not provable): that the algorithm returns for every semiprime below 2^63.
    It is a randomised Brent/Pollard search: termination depends on the random stream (a
@@ -87,7 +95,7 @@ Print Assumptions C13_pq_semiprime.
 (* non-vacuity *)
 Example C13_safe_prime_exists : 6 < 23 < 4000 /\ safe_primeb 23 = true /\ gp_table 2 23.
 Proof. repeat split; try reflexivity. left. split; reflexivity. Qed.
-Example C13_pq_returns : decompose_pq 5 1000 (11 * 13) [5; 7] = Ok (11, 13).
+Example C13_pq_returns : decompose_pq false 5 1000 (11 * 13) [5; 7] = Ok (11, 13).
 Proof. vm_compute. reflexivity. Qed.
 Example C13_inrange_satisfiable :
   check_dh_params (2 ^ 2048 - 1) 3 (2 ^ 2000) (2 ^ 2001) = 0.
